@@ -264,4 +264,16 @@ theorem shape_ids {k : Kind} {m : LogicalModel} {i : InputShape} {o : OutputShap
     rw [hi, ho, hm]
     constructor <;> simp [List.map_map, Function.comp_def, saDecl]
 
+/-! ### the witness model of the TypedDict order deviation -/
+
+/-- two fields declared `b, a` -/
+def mBA : LogicalModel := { fields := [{ name := "b", ty := .str }, { name := "a", ty := .int }] }
+theorem sortByName_mBA :
+    sortByName ((mBA.fields).map (declField .typedDict false))
+      = [{ name := "a", ty := .int }, { name := "b", ty := .str }] := by
+  unfold sortByName
+  simp only [mBA, List.map_cons, List.map_nil, declField, LDflt.isNone]
+  rw [List.mergeSort]
+  simp
+
 end Adaptix.Kinds
